@@ -106,3 +106,46 @@ class InitTraitDelegateListener(Contract):
 
     def covers(self, cx, ov, info):
         return [("installs", lambda k, p, s: k == "return")]
+
+
+@register
+class DelegateForwarder(Contract):
+    """_init_trait_delegate_listener.<locals>.notify -- the forwarder itself.  It is called with the name of what changed on the
+    delegate: the target attribute's name, possibly followed by a suffix ('_items' for in-place changes of a container target).
+    It must report the change under the deferring attribute's name followed by the SAME suffix -- what follows the target's
+    name, determined by the target name's LENGTH, not by the look of the text (a target may itself be called 'line_items') --
+    with the old and new values unchanged, exactly once."""
+    path = PATH
+    qualname = "HasTraits._init_trait_delegate_listener.<locals>.notify"
+    properties = ("C11",)
+    class_paths = (PATH,)
+    assumptions = ("A-PY", "trait_property_changed is the compiled notification entry (contract in contracts/c/notify.py), used as a summary")
+
+    def configure(self, cx, I, ov):
+        lg = lambda st, rec: st.gset("log", st.ghost.get("log", ()) + (rec,))
+        cx.elem_attrs["trait_property_changed"] = lambda I2, o, st, k: k(VFunc("opaque", name="trait_property_changed", apply=lambda I3, a, kw, s, kk: kk(NONE, lg(s, ("tpc", tuple(a), dict(kw))))), st)
+
+    def setup(self, cx, I, ov):
+        self.name, self.target, self.suffix = z3.String("deferring_name"), z3.String("target_name"), z3.String("suffix")
+        self.old, self.new = z3.Consts("old new", Val)
+        closure = {"name": VStr(self.name), "target_name_len": VInt(z3.Length(self.target))}
+        notify_name = z3.Concat(self.target, self.suffix)
+        return St(), [VElem(z3.Const("self_object", Val)), VElem(z3.Const("delegate_object", Val)), VStr(notify_name), VElem(self.old), VElem(self.new)], {}, dict(
+            closure_env=closure, witness={"target": self.target, "suffix": self.suffix},
+            concretise=lambda m: dict(harness="delegate", family="link_notification"))
+
+    def post(self, cx, I, ov, info, kind, payload, st):
+        if kind == "raise":
+            return [("exc-free", z3.BoolVal(False), dict(exception="%s %r" % (payload.cname or payload.sym, payload.origin)))]
+        calls = [r for r in st.ghost.get("log", ()) if r[0] == "tpc"]
+        out = [("post:the-change-is-reported-exactly-once", z3.BoolVal(len(calls) == 1))]
+        if len(calls) == 1:
+            a = calls[0][1]
+            ok = len(a) == 3 and isinstance(a[0], VStr) and a[0].t is not None
+            out.append(("post:reported-under-the-deferring-name-followed-by-the-same-suffix-for-every-target-name",
+                        a[0].t == z3.Concat(self.name, self.suffix) if ok else z3.BoolVal(False)))
+            out.append(("post:old-and-new-are-passed-on-unchanged", z3.And(as_val(cx, a[1], st) == self.old, as_val(cx, a[2], st) == self.new) if len(a) == 3 else z3.BoolVal(False)))
+        return out
+
+    def covers(self, cx, ov, info):
+        return [("forwards", lambda k, p, s: k == "return")]
